@@ -6,13 +6,15 @@ from harness.common import sim
 PROP = "C56"
 LEAN_MODULES = ["LunaVerif.Props.C56", "LunaVerif.Props.C56Stream", "LunaVerif.Props.C56Spi",
                 "LunaVerif.Lemmas.C56StreamAny", "LunaVerif.Props.C56Uart", "LunaVerif.Props.C56Cdc",
-                "LunaVerif.Props.C56SpiBits"]
+                "LunaVerif.Props.C56SpiBits", "LunaVerif.Lemmas.C56UartRank", "LunaVerif.Props.C56UartLive"]
 DRIVER = "Driver/C56.lean"
 REQUIRED_THEOREMS = ["captures_depth_consecutive_samples", "readback_nth", "trigger_during_capture_ignored",
                      "pretrigger_delay", "stream_readout_exact", "stream_readout_complete",
                      "stream_readout_returns_idle", "spi_readout_words", "stream_readout_any", "uart_readout_exact",
                      "uart_readout_complete", "uart_readout_decoded", "decode_wave", "mb_line", "mb_bytes",
-                     "queue_conservation", "cdc_readout_in_order", "cdc_readout_complete", "spi_readout_bits"]
+                     "queue_conservation", "cdc_readout_in_order", "cdc_readout_complete", "spi_readout_bits",
+                     "rank_tstep", "live_step", "rank_zero_iff", "uart_readout_duration", "uart_readout_within",
+                     "uart_readout_total", "uart_readout_total_decoded"]
 RULE = ("cases = (sample_depth in {1,2,5,32,100} (+3,4,7,8,16,33 thorough), samples_pretrigger 0..3, domain sync/usb, "
         "three captured signals of 1+8+5 bits) x pattern: triggers sparse / held high / bursts / random incl. during "
         "capture; inputs random every cycle or a counter; captured_sample_number sweeps and random reads, also while "
@@ -49,9 +51,12 @@ ASSUMPTIONS = ["sample_depth >= 1", "captured_sample_number < sample_depth (addr
                "history considered (noRetrigger: trigger low in the cycles in which the wrapper FSM is IDLE; triggers "
                "during capture and read-out are allowed, they are blocked by the wrapper); divisor >= 1, bytes_per_sample >= 1",
                "uart_readout_complete / uart_readout_decoded: the transmitter is quiescent at the start, and the history is "
-               "long enough that at its end the wrapper is idle again and the transmitter quiescent (no bound on the "
-               "length of the read-out is proved; the monitor checks on the real gateware that a trigger-free tail of "
-               "one read-out time suffices)",
+               "long enough that at its end the wrapper is idle again and the transmitter quiescent; "
+               "uart_readout_duration / _within / _total / _total_decoded discharge the second half: wrapper idle and "
+               "transmitter quiescent at the start (UartQuiet), no new capture started in the continuation "
+               "(noRetrigger), and the continuation after the hand-over cycle has at least "
+               "10*divisor*bytes_per_sample*depth + 3 cycles (exactly readoutCycles = that - data_valid are needed: "
+               "proved as an iff by a ranking function that decreases by one per cycle)",
                "cdc_readout_in_order (StreamILA with o_domain != domain): Amaranth's AsyncFIFOBuffered behaves as an "
                "in-order queue (w_rdy / r_rdy arbitrary, r_rdy only when a word is in the queue: Legal) - library code, "
                "not proved, validated on every simulated two-clock trace; any interleaving of the two clocks' edges; "
@@ -60,16 +65,21 @@ ASSUMPTIONS = ["sample_depth >= 1", "captured_sample_number < sample_depth (addr
 PARTIAL = ("the IntegratedLogicAnalyzer core and all three read-out wrappers are modelled, co-simulated and proved: StreamILA "
            "(same clock domain), SyncSerialILA down to the sdo pin (spi_readout_bits), AsyncSerialILA down to the tx "
            "waveform (uart_readout_exact / _complete / _decoded), StreamILA with o_domain != domain down to the output-domain "
-           "stream (cdc_readout_in_order / _complete). What remains: (1) AsyncSerialILA: no upper bound on the duration "
-           "of the read-out is proved - the 'all depth samples, each once' form assumes a history at whose end wrapper and "
-           "transmitter are idle again (the prefix form holds for every history); (2) the clock-domain crossing is proved "
+           "stream (cdc_readout_in_order / _complete). The duration of the UART read-out is proved exactly "
+           "(uart_readout_duration: wrapper idle and transmitter quiescent again iff at least "
+           "10*divisor*bytes_per_sample*depth + 3 - data_valid cycles have passed since the hand-over cycle, for all "
+           "depths / widths / divisors, by a ranking function), so uart_readout_total / _total_decoded need no "
+           "assumption on the end of the history. What remains: (1) the clock-domain crossing is proved "
            "over an abstract in-order-queue model of Amaranth's AsyncFIFOBuffered (any clock interleaving, any w_rdy / "
            "r_rdy behaviour within the queue contract); that the library FIFO's Gray-code implementation meets that "
            "contract for all histories, and that it eventually delivers (liveness), is validated on the simulated "
-           "two-clock traces only; (3) the UART / CDC theorems consider one capture per history (no new trigger accepted "
-           "after the hand-over cycle); consecutive captures compose through stream_readout_returns_idle and the general "
-           "start state of uart_readout_exact (bytes pending / owed at the start are carried through), but a whole-history "
-           "multi-capture statement is not written out")
+           "two-clock traces only; (2) the UART / CDC theorems consider one capture per history (no new trigger accepted "
+           "after the hand-over cycle; the UART duration theorems start from a quiescent transmitter, which "
+           "uart_readout_within re-establishes at the end); consecutive captures compose through "
+           "stream_readout_returns_idle and the general start state of uart_readout_exact (bytes pending / owed at "
+           "the start are carried through), but a whole-history multi-capture statement is not written out; (3) no "
+           "duration bound is stated for the SyncSerialILA read-out (its pace is the SPI controller's: the theorems "
+           "hold for every sck / cs activity)")
 
 WIDTHS = [1, 8, 5]
 TOTAL = sum(WIDTHS)
